@@ -528,6 +528,23 @@ class Sim:
                     "constructing %s under %s again, while the first result is alive, returned a different object (%r vs %r)"
                     % (json.dumps(ev["recipe"]), interp, _brief(obj), _brief(prior)),
                 )
+        if ev["recipe"][0] == "subs2" and interp in ("reflect", "lazy") and isinstance(obj, f.terms.Funsor):
+            # the same request spelled in the other keyword order, while the first result is alive
+            rec = list(ev["recipe"])
+            rec[3] = not rec[3]
+            try:
+                fn2, _ = self.build(rec)
+                with self.interp(interp):
+                    obj2 = fn2()
+            except Exception:  # noqa
+                obj2 = obj
+            self.stats["identity_hits"] += 1
+            if obj2 is not obj:
+                raise Violation(
+                    "I2-construct-not-identical",
+                    "a substitution into two inputs %s under %s gave two live objects depending on the order in which the keywords are written (%r vs %r)"
+                    % (json.dumps(ev["recipe"][2]), interp, _brief(obj), _brief(obj2)),
+                )
         # I3: no stale object
         if ev["recipe"][0] == "tensor" and isinstance(obj, f.Tensor):
             arr = self.slots[ev["recipe"][1]]
